@@ -8,7 +8,7 @@ column check, not only when _schema_updated was set.
 from gx.props import _hist
 
 PROP = "C08"
-CFG = {"oracles": ('schema', 'failed', 'undo'), "n_bundles": 12, "profile": {'add_column': 8, 'add_formula_column': 6, 'remove_column': 6, 'rename_column': 7, 'modify_type': 6, 'modify_formula': 4, 'to_formula': 3, 'to_data': 3, 'label_change': 4, 'add_table': 4, 'remove_table': 3, 'rename_table': 4, 'duplicate_table': 1.5, 'summary': 3, 'update_summary': 2, 'detach_summary': 1, 'reverse_column': 2, 'add_ref_column': 3, 'meta_raw': 0, 'malformed': 6, 'then_fail': 8}}
+CFG = {"oracles": ('schema', 'failed', 'undo'), "n_bundles": 12, "profile": {'add_column': 8, 'add_formula_column': 6, 'remove_column': 6, 'rename_column': 7, 'modify_type': 6, 'modify_formula': 4, 'to_formula': 3, 'to_data': 3, 'label_change': 4, 'add_table': 4, 'remove_table': 3, 'rename_table': 4, 'duplicate_table': 1.5, 'summary': 3, 'update_summary': 2, 'detach_summary': 1, 'reverse_column': 2, 'add_ref_column': 3, 'meta_raw': 0, 'malformed': 6, 'then_fail': 8, 'resave_formula': 4, 'rename_retype': 3}}
 TIE_KINDS = ('doc-M', 'doc-P', 'schema-pred', 'driver')
 
 
